@@ -22,6 +22,9 @@ from pywbem._nocasedict import NocaseDict
 from pywbem._vendor.nocasedict import NocaseDict as VendorNocaseDict
 
 warnings.simplefilter("ignore")
+# NULL key values are CIMInstanceName objects like any other for the
+# statement; pywbem only builds them when this (public) switch is on.
+pywbem.config.IGNORE_NULL_KEY_VALUE = True
 
 # ---------------------------------------------------------------------------
 # names: abstract <<base, variant>>  <->  concrete string
@@ -32,6 +35,11 @@ GENERIC = {
     "n3": ["Gamma_3", "GAMMA_3", "gamma_3"],
     "n4": ["Delta", "dELTA"],
     "n5": ["Épsilon", "épsilon", "ÉPSILON"],
+    # special-fold class (spec: FoldOf("n6s") = "n6"): the spellings of n6
+    # are equal under lower(), those of n6s too, and n6 / n6s spellings are
+    # equal only under full case folding (casefold())
+    "n6": ["Straße", "STRAßE", "straße"],
+    "n6s": ["STRASSE", "strasse", "Strasse"],
     "nz": ["Zeta", "ZETA"],
     "ny": ["Ypsilon", "YPSILON"],
     "nx": ["Xi", "XI"],
@@ -42,6 +50,8 @@ NAMESPACE = {
     "n3": ["root/a/b", "ROOT/A/b"],
     "n4": ["root", "Root"],
     "n5": ["x/y", "X/Y"],
+    "n6": ["root/Straße", "ROOT/STRAßE"],
+    "n6s": ["root/STRASSE", "Root/strasse"],
     "nz": ["root/zeta", "ROOT/ZETA"],
     "ny": ["root/yps", "ROOT/YPS"],
 }
@@ -51,6 +61,8 @@ HOST = {
     "n3": ["10.11.12.13"],
     "n4": ["h4", "H4"],
     "n5": ["[fe80::1]:5988", "[FE80::1]:5988"],
+    "n6": ["straße.example.com", "STRAßE.Example.COM"],
+    "n6s": ["strasse.example.com", "STRASSE.EXAMPLE.COM"],
     "nz": ["zhost", "ZHOST"],
     "ny": ["yhost", "YHOST"],
 }
@@ -60,6 +72,11 @@ for _tab in (GENERIC, NAMESPACE, HOST):
         for _i, _v in enumerate(_vs):
             assert _v not in REVERSE, _v
             REVERSE[_v] = (_b, _i)
+        # the base is the class under lower(); the fold class that of the spec
+        assert len({_v.lower() for _v in _vs}) == 1, _vs
+for _tab in (GENERIC, NAMESPACE, HOST):
+    assert _tab["n6"][0].lower() != _tab["n6s"][0].lower()
+    assert _tab["n6"][0].casefold() == _tab["n6s"][0].casefold()
 NONAME = {"b": "", "c": 0}
 
 
@@ -925,16 +942,29 @@ def heap_root_node(root):
                                              _e(_n("n2"), _s("bool:True", "1"))]]}
     ndict = {"k": "NocaseDict", "nm": [], "at": [],
              "ch": [[_e(_n("n1"), qual), _e(_n("n2"), _s("int:1", "1"))]]}
+    # array-valued objects whose array is EMPTY (list cell of kind "empty")
+    quale = dict(qual, ch=[_v(_l([]))])
+    prope = {"k": "Property", "nm": [_n("n1"), dict(NONAME), _n("n2")],
+             "at": ["s:string", "none", "True", "none", "False"],
+             "ch": [_v(_l([])), quals]}
+    parme = {"k": "Parameter", "nm": [_n("n1"), dict(NONAME)],
+             "at": ["s:uint8", "none", "True", "i:5"],
+             "ch": [_v(_l([])), quals]}
+    qdecle = dict(qdecl, ch=[_v(_l([])), qdecl["ch"][1]])
     return {"InstanceName": iname, "ClassName": cname, "Instance": inst,
             "Class": cls, "Property": prop, "PropertyObj": propobj,
             "PropertyRef": propref, "Method": meth, "Parameter": parm,
             "Qualifier": qual, "QualifierDeclaration": qdecl,
-            "NocaseDict": ndict}[root]
+            "NocaseDict": ndict, "PropertyEmpty": prope,
+            "ParameterEmpty": parme, "QualifierEmpty": quale,
+            "QualifierDeclarationEmpty": qdecle}[root]
 
 
 HEAP_ROOTS = ("InstanceName", "ClassName", "Instance", "Class", "Property",
               "PropertyObj", "PropertyRef", "Method", "Parameter",
-              "Qualifier", "QualifierDeclaration", "NocaseDict")
+              "Qualifier", "QualifierDeclaration", "NocaseDict",
+              "PropertyEmpty", "ParameterEmpty", "QualifierEmpty",
+              "QualifierDeclarationEmpty")
 
 
 def follow(root, steps):
@@ -997,6 +1027,8 @@ def behaviour_event(build, m, muts, rng):
 BAGS = {"InstanceName": {0}, "Instance": {1, 2}, "Class": {1, 2, 3},
         "Property": {1}, "Method": {0, 1}, "Parameter": {1},
         "QualifierDeclaration": {1}, "NocaseDict": {0}}
+# bags whose keys are not tied to a name attribute of the stored value
+FREE_KEY_BAGS = {"InstanceName": 0, "NocaseDict": 0, "QualifierDeclaration": 1}
 FLAGS = ["none", "True", "False"]
 CIMTYPES = ["string", "uint8", "sint8", "uint16", "sint16", "uint32",
             "sint32", "uint64", "sint64", "real32", "real64", "boolean",
@@ -1110,6 +1142,8 @@ class RichGen:
             return self.dt()
         if x < 0.95 and depth > 0:
             return self.instancename(depth - 1)
+        if x < 0.975:
+            return _s("none")       # NULL key value / None-valued item
         return _s("sint64:-1", "-1")
 
     # objects
@@ -1372,6 +1406,8 @@ class RichGen:
                 ops.append("name")
             if BAGS.get(k):
                 ops.append("bag")
+            if k in FREE_KEY_BAGS and x["ch"][FREE_KEY_BAGS[k]]:
+                ops.append("rekey")
             if not ops:
                 continue
             op = r.choice(ops)
@@ -1433,6 +1469,19 @@ class RichGen:
                                                        "Instance", "Class"):
                     self._rekey(m, x)
                 return m
+            if op == "rekey":
+                # same length, same values, one item under another key
+                g = x["ch"][FREE_KEY_BAGS[k]]
+                used = {e["key"]["b"] for e in g}
+                free = [b for b in ("n1", "n2", "n3", "n4", "n5")
+                        if b not in used]
+                if not free:
+                    continue
+                nones = [e for e in g if e["n"]["k"] == "S" and
+                         e["n"]["at"][0] == "none"]
+                e = r.choice(nones) if nones else r.choice(g)
+                e["key"] = {"b": r.choice(free), "c": 0}
+                return m
             if op == "bag":
                 gi = r.choice(sorted(BAGS[k]))
                 g = x["ch"][gi]
@@ -1449,6 +1498,46 @@ class RichGen:
                 g.append(_e({"b": b, "c": 0}, child))
                 return m
         return None
+
+    def foldpair(self, n):
+        """two variants of n in which ONE name (an own name of some object
+        in the tree, with the key it is stored under, or a free dictionary
+        key) is replaced by a spelling of n6 in the one and of n6s in the
+        other: equal under full case folding only (spec: U)."""
+        r = self.rng
+
+        def sites(m):
+            out = []
+
+            def rec(x):
+                for i, nm in enumerate(x["nm"]):
+                    if nm["b"]:
+                        out.append(("nm", x, i))
+                gi = FREE_KEY_BAGS.get(x["k"])
+                for j, g in enumerate(x["ch"]):
+                    for e in g:
+                        if j == gi and e["key"]["b"]:
+                            out.append(("key", e, 0))
+                        rec(e["n"])
+            rec(m)
+            return out
+        cnt = len(sites(n))
+        if not cnt:
+            return None
+        pick = r.randrange(cnt)
+        res = []
+        for base in ("n6", "n6s"):
+            m = copy_.deepcopy(n)
+            what, x, i = sites(m)[pick]
+            if what == "key":
+                x["key"] = {"b": base, "c": r.randrange(len(GENERIC[base]))}
+            else:
+                tab = self._table_for(x["k"], i)
+                x["nm"][i] = {"b": base, "c": r.randrange(len(tab[base]))}
+                if i == 0 and x is not m:
+                    self._rekey(m, x)
+            res.append(m)
+        return res
 
     def _rekey(self, root, child):
         def rec(x):
